@@ -37,3 +37,10 @@ UNITS.append(dict(name='C11.loader_queue', props=['C11', 'C05'], kind='P', route
      functions=[dict(name='_dbus_message_loader_peek_message/_pop_message/_pop_message_link/_putback_message_link', file='dbus/dbus-message.c', status='enforced', contract='the transport sees and takes only the oldest loaded message; an undone pop is the first again'),
                 dict(name='_dbus_list_pop_first(_link)/_prepend_link', file='dbus/dbus-list.c', status='stub', note='which end of the loader queue is used is the obligation')],
      assumptions=[]))
+
+UNITS.append(dict(name='C11.counter_notify', props=['C11', 'C13', 'C10'], kind='P', route='plain', entry='harness',
+     tus=[dict(file='dbus/dbus-resources.c', include_as='VERIF_TU')], harness='harness/c11_counter.c', timeout=300, expect_s=10,
+     must_have=['ctr.post2', 'ctr.post5'],
+     functions=[dict(name='_dbus_counter_adjust_size, _dbus_counter_adjust_unix_fd, _dbus_counter_notify', file='dbus/dbus-resources.c', status='enforced', contract='pending exactly when "value >= guard" changes truth; notify once per pending mark, outside the lock'),
+                dict(name='_dbus_rmutex_lock/_unlock', file='dbus/dbus-threads.c', status='assumed', note='sequential; lock depth counted')],
+     assumptions=['values are non-negative sums below 2^47 (no overflow of the long counter: machine arithmetic otherwise exact)']))
